@@ -134,7 +134,10 @@ def structure(raw):
         if in_footer:
             footer.append(s)
         elif s.strip():
-            rows.append([Q(float(t)) for t in s.split()])
+            try:
+                rows.append([Q(float(t)) for t in s.split()])
+            except ValueError:   # not numbers at all (binary junk after a non-binary data line)
+                return dict(first=first, lines=out, body=dict(text=[], footer=[])), data_off
     return dict(first=first, lines=out, body=dict(text=rows, footer=footer)), data_off
 
 
